@@ -332,9 +332,16 @@ impl Display for Format<'_, Formula> {
         match self.0 {
             Formula::AtomicFormula(a) => Format(a).fmt(f),
             Formula::UnaryFormula { formula, .. } => self.fmt_unary(Format(formula.as_ref()), f),
-            Formula::QuantifiedFormula { formula, .. } => {
-                self.fmt_unary(Format(formula.as_ref()), f)
-            }
+            Formula::QuantifiedFormula {
+                quantification,
+                formula,
+            } => match formula.as_ref() {
+                // without parentheses the first term of the comparison reads as one more quantified variable
+                Formula::AtomicFormula(c @ AtomicFormula::Comparison(_)) => {
+                    write!(f, "{} ({})", Format(quantification), Format(c))
+                }
+                _ => self.fmt_unary(Format(formula.as_ref()), f),
+            },
             Formula::BinaryFormula { lhs, rhs, .. } => {
                 self.fmt_binary(Format(lhs.as_ref()), Format(rhs.as_ref()), f)
             }
